@@ -588,7 +588,9 @@ func addTransceiverSDP(
 		// validation failed.
 		// In addition this makes our SDP compliant with RFC 4566 Section 5.7:
 		// https://datatracker.ietf.org/doc/html/rfc4566#section-5.7
-		descr.WithMedia(&sdp.MediaDescription{
+		// A rejected section still carries the mid of the section it answers
+		// (RFC 8829 section 5.3.1), so that the peer can tell which one was rejected.
+		descr.WithMedia((&sdp.MediaDescription{
 			MediaName: sdp.MediaName{
 				Media:   transceiver.kind.String(),
 				Port:    sdp.RangedPort{Value: 0},
@@ -602,7 +604,7 @@ func addTransceiverSDP(
 					Address: "0.0.0.0",
 				},
 			},
-		})
+		}).WithValueAttribute(sdp.AttrKeyMID, midValue))
 
 		return false, nil
 	}
